@@ -7,7 +7,7 @@ K15c (S) wrapping (`_output` arithmetic on symbolic ints) and truncation (`color
 """
 import ast
 
-from lib.hx import harness, pick, pickb, done, tier, PART, note, known, THOROUGH
+from lib.hx import harness, pick, pickb, done, tier, PART, note, known, THOROUGH, sample
 
 PROPERTY = "C15"
 LEVEL = "model_checking"
@@ -110,6 +110,7 @@ def check_expr(psrc, pk, ck, extra="", inline=True):
         want = ast.parse(psrc, mode="eval").body
     except SyntaxError:
         return True
+    sample(expression=psrc, inline=inline)
     try:
         out = render(psrc, inline)
     except Exception as e:
